@@ -147,13 +147,22 @@ Theorem C10_inputs_unchanged :
 Proof. exact writer_keeps_inputs. Qed.
 Print Assumptions C10_inputs_unchanged.
 
-(* the same for every program that copies before it changes anything *)
+(* the same for every program that copies before it changes anything, and every copy
+   recipe under which each component kind (list / count / index variable, bounds, interior
+   ring ...) becomes a new object - as the transcribed table [deep_copied] says of the code *)
 Theorem C10_inputs_unchanged_copy_first :
-  forall prog fields h n h' n' err,
-  copy_first prog = true -> write_all prog h n fields = (h', n', err) ->
+  forall D prog fields, (forall k, D k = true) -> forall h n h' n' err,
+  copy_first prog = true -> write_all_d D prog h n fields = (h', n', err) ->
   agree n h h' /\ (n <= n')%nat.
 Proof. exact inputs_unchanged. Qed.
 Print Assumptions C10_inputs_unchanged_copy_first.
+
+(* Non-vacuity: the writer names the list variable of its copy; the caller's keeps its name. *)
+Theorem C10_inputs_unchanged_list_example :
+  exists h', write_all (writer_prog true [ISet 0 0 6]) ex_heap2 1%nat [ex_obj2] = (h', 2%nat, false)
+             /\ hget h' 0%nat = [(0, 5)] /\ hget h' 1%nat = [(0, 6); (0, 5)].
+Proof. exact deep_list_example. Qed.
+Print Assumptions C10_inputs_unchanged_list_example.
 
 (* Non-vacuity: interior ring variables with different property sets; the
    copies are harmonised, the caller's are not. *)
@@ -162,3 +171,57 @@ Theorem C10_inputs_unchanged_example :
              /\ hget h' 0%nat = [(1, 7)] /\ hget h' 1%nat = [] /\ hget h' 3%nat = [(1, 7)].
 Proof. exact writer_keeps_inputs_example. Qed.
 Print Assumptions C10_inputs_unchanged_example.
+
+(* ---- names as given (second round) ---------------------------------------------------------
+   The file name is expanded first (os.path.expandvars, os.path.expanduser - a function of
+   the environment), then identified.  The guard and the overwrite theorems hold for the
+   name AS THE CALLER WROTE IT, for every environment ... *)
+Theorem C10_guard_sound_given :
+  forall ev fs q o stamp fs' r f n,
+  tree_wf (nodes fs) -> In f (gq_fields q) -> needs f n ->
+  is_regular (nodes fs) (real fs n) = true ->
+  write_given ev guard fs q o stamp = (fs', r) ->
+  match w_mode o with
+  | MA => stamp_of (content fs' (real fs n)) = stamp_of (content fs (real fs n))
+  | _ => content fs' (real fs n) = content fs (real fs n)
+  end.
+Proof. exact guard_sound_given. Qed.
+Print Assumptions C10_guard_sound_given.
+
+Theorem C10_no_overwrite_given :
+  forall ev G fs q o stamp,
+  w_mode o = MW -> w_overwrite o = false -> isfile_p (nodes fs) (expand ev (gq_x q)) = true ->
+  exists e, write_given ev G fs q o stamp = (fs, Some e).
+Proof. exact no_overwrite_given. Qed.
+Print Assumptions C10_no_overwrite_given.
+
+Theorem C10_no_overwrite_all_given :
+  forall ev G fs q o stamp fs' r K,
+  tree_wf (nodes fs) -> w_mode o = MW -> w_overwrite o = false -> is_regular (nodes fs) K = true ->
+  write_given ev G fs q o stamp = (fs', r) ->
+  content fs' K = content fs K.
+Proof. exact no_overwrite_all_given. Qed.
+Print Assumptions C10_no_overwrite_all_given.
+
+(* ... and the whole outcome - refusal, files removed / created / appended to, error class -
+   is the same for any two spellings that expand to the same paths. *)
+Theorem C10_spelling_invariant :
+  forall ev G fs q1 q2 o stamp,
+  gq_fields q1 = gq_fields q2 -> gq_efields q1 = gq_efields q2 ->
+  expand ev (gq_x q1) = expand ev (gq_x q2) ->
+  option_map (expand ev) (gq_ext q1) = option_map (expand ev) (gq_ext q2) ->
+  write_given ev G fs q1 o stamp = write_given ev G fs q2 o stamp.
+Proof. exact spelling_invariant. Qed.
+Print Assumptions C10_spelling_invariant.
+
+(* Non-vacuity: an existing file named plainly, as $V/e.nc, as ~/e.nc and through a directory
+   link is refused alike with overwrite disabled; with the existence test made on the
+   unexpanded name nothing is refused and the file is replaced. *)
+Theorem C10_given_example :
+  Forall (fun x => write_given ex_env guard ex_fs (ex_gq x) (mkW MW false FNone) 1000 = (ex_fs, Some OtherErr))
+         [[RLit 1; RLit 2; RLit 8]; [RVar 1; RLit 8]; [RHome; RLit 8]; [RLit 1; RLit 3; RLit 8]] /\
+  (let '(fs', r) := write_given_test_unexpanded (fun _ => [99; 8]) ex_env guard ex_fs (ex_gq [RVar 1; RLit 8])
+                      (mkW MW false FNone) 1000 in
+   r = None /\ content fs' [1; 2; 8] <> content ex_fs [1; 2; 8]).
+Proof. exact given_example. Qed.
+Print Assumptions C10_given_example.
